@@ -36,7 +36,7 @@ func (t *TagTable) getProfileDescription() (string, error) {
 		if err != nil {
 			return "", err
 		}
-		if enUS := mluc.getStringForLanguage([2]byte{'e', 'n'}); enUS != "" {
+		if enUS, found := mluc.getStringForLanguage([2]byte{'e', 'n'}); found {
 			return enUS, nil
 		}
 		return mluc.getAnyString(), nil
